@@ -1279,6 +1279,82 @@ variant("greet-newsession-helper",
 		}
 	}"""),
   ("conn.go", "func (c *Conn) Server() *Server {", "// openSession asks the backend for a session and installs it.\nfunc (c *Conn) openSession() error {\n	sess, err := c.server.Backend.NewSession(c)\n	if err != nil {\n		return err\n	}\n	c.setSession(sess)\n	return nil\n}\n\nfunc (c *Conn) Server() *Server {"))
+variant("mail-callback-helper",
+  ("conn.go", """	if err := c.Session().Mail(from, opts); err != nil {
+		c.writeError(451, EnhancedCode{4, 0, 0}, err)
+		return
+	}
+
+	c.writeResponse(250, EnhancedCode{2, 0, 0}, fmt.Sprintf("Roger, accepting mail from <%v>", from))""", """	if err := c.askMail(from, opts); err != nil {
+		c.writeError(451, EnhancedCode{4, 0, 0}, err)
+		return
+	}
+
+	c.writeResponse(250, EnhancedCode{2, 0, 0}, fmt.Sprintf("Roger, accepting mail from <%v>", from))"""),
+  ("conn.go", "func (c *Conn) Server() *Server {", "// askMail asks the backend whether it takes mail from this sender.\nfunc (c *Conn) askMail(from string, opts *MailOptions) error {\n	return c.Session().Mail(from, opts)\n}\n\nfunc (c *Conn) Server() *Server {"))
+variant("bdat-discard-helper",
+  ("conn.go", """		// RFC 3030: the chunk of a refused BDAT must be discarded, it
+		// must not be interpreted as commands.
+		_, discardErr := io.Copy(ioutil.Discard, io.LimitReader(c.text.R, int64(size)))
+		c.writeResponse(502, EnhancedCode{5, 5, 1}, "Missing RCPT TO command.")""", """		// RFC 3030: the chunk of a refused BDAT must be discarded, it
+		// must not be interpreted as commands.
+		discardErr := c.discardChunk(int64(size))
+		c.writeResponse(502, EnhancedCode{5, 5, 1}, "Missing RCPT TO command.")"""),
+  ("conn.go", "func (c *Conn) Server() *Server {", "// discardChunk skips the n octets of a chunk that is not handed to the backend.\nfunc (c *Conn) discardChunk(n int64) error {\n	_, err := io.Copy(ioutil.Discard, io.LimitReader(c.text.R, n))\n	return err\n}\n\nfunc (c *Conn) Server() *Server {"))
+variant("close-lmtp-replies-helper",
+  ("client.go", """	expectedResponses := len(d.c.rcpts)
+	if d.c.lmtp {
+		// Without a status callback the first per-recipient failure is
+		// reported by Close itself instead of being lost.
+		var firstErr error
+		for expectedResponses > 0 {
+			rcpt := d.c.rcpts[len(d.c.rcpts)-expectedResponses]
+			if _, _, err := d.c.readResponse(250); err != nil {
+				if smtpErr, ok := err.(*SMTPError); ok {
+					if d.statusCb != nil {
+						d.statusCb(rcpt, smtpErr)
+					} else if firstErr == nil {
+						firstErr = smtpErr
+					}
+				} else {
+					return err
+				}
+			} else if d.statusCb != nil {
+				d.statusCb(rcpt, nil)
+			}
+			expectedResponses--
+		}
+		return firstErr
+	} else {""", """	if d.c.lmtp {
+		return d.readLMTPReplies()
+	} else {"""),
+  ("client.go", "func (d *dataCloser) Close() error {", """// readLMTPReplies reads one reply per accepted recipient.
+func (d *dataCloser) readLMTPReplies() error {
+	expectedResponses := len(d.c.rcpts)
+	// Without a status callback the first per-recipient failure is
+	// reported by Close itself instead of being lost.
+	var firstErr error
+	for expectedResponses > 0 {
+		rcpt := d.c.rcpts[len(d.c.rcpts)-expectedResponses]
+		if _, _, err := d.c.readResponse(250); err != nil {
+			if smtpErr, ok := err.(*SMTPError); ok {
+				if d.statusCb != nil {
+					d.statusCb(rcpt, smtpErr)
+				} else if firstErr == nil {
+					firstErr = smtpErr
+				}
+			} else {
+				return err
+			}
+		} else if d.statusCb != nil {
+			d.statusCb(rcpt, nil)
+		}
+		expectedResponses--
+	}
+	return firstErr
+}
+
+func (d *dataCloser) Close() error {"""))
 if sys.argv[1:] == ['--export']:
     out = [{"id": "benign-" + n, "edits": [{"file": f, "old": o, "new": w} for f, o, w in V[n]]} for n in V]
     json.dump(out, open('/verif/liveness/benign.json', 'w'), indent=1)
